@@ -5,6 +5,7 @@
 package verifsim
 
 import (
+	"reflect"
 	"fmt"
 	"os"
 	"runtime"
@@ -66,6 +67,12 @@ type parked struct {
 	try  func() bool
 	ch   chan struct{}
 	seq  uint64
+	// lock waits: identity of the mutex, read or write, and whether this writer has
+	// already been refused once - from then on it is a *pending* writer, and
+	// sync.RWMutex lets no new reader in while a writer is pending
+	mid       uintptr
+	write     bool
+	announced bool
 }
 
 // Event is a simulator-owned action (network delivery, fault, timer of the
@@ -148,6 +155,7 @@ type Sched struct {
 	OnCrash   func(node string)
 	OnSignal  func(node string)
 	crashCnt  map[string]int
+	pendingW  map[uintptr]int // mutex id -> writers that have called Lock and wait
 	CrashSeen map[string]int // crash points seen per "node/kind"
 
 	lastProgress time.Time
@@ -341,7 +349,26 @@ var SpinLocks bool
 // Acquire replaces x.Lock()/x.RLock(): the goroutine parks and the scheduler
 // performs the TryLock on its behalf when it picks it, so a contended lock is
 // a scheduler-visible wait and never a non-durable block.
-func Acquire(site string, try func() bool, lock func()) {
+func Acquire(site string, try func() bool, lock func()) { AcquireM(site, try, lock, 0, true) }
+
+// MutexID gives a lock wait the identity of its mutex: p is &recv for the receiver
+// expression of the Lock/RLock call (a pointer to the mutex, or to a pointer to it).
+func MutexID(p any) uintptr {
+	v := reflect.ValueOf(p)
+	if v.Kind() != reflect.Pointer || v.IsNil() {
+		return 0
+	}
+	if v.Elem().Kind() == reflect.Pointer {
+		v = v.Elem()
+		if v.IsNil() {
+			return 0
+		}
+	}
+	return v.Pointer()
+}
+
+// AcquireM is Acquire with the mutex identity (0 = unknown) and the kind of lock.
+func AcquireM(site string, try func() bool, lock func(), mid uintptr, write bool) {
 	s := S
 	if s == nil {
 		if SpinLocks {
@@ -356,7 +383,7 @@ func Acquire(site string, try func() bool, lock func()) {
 		return
 	}
 	if s.active {
-		p := &parked{site: site, kind: "lock", try: try, ch: make(chan struct{})}
+		p := &parked{site: site, kind: "lock", try: try, ch: make(chan struct{}), mid: mid, write: write}
 		s.mu.Lock()
 		if s.active {
 			p.name = s.nameOfLocked(site)
@@ -424,6 +451,29 @@ type cand struct {
 	key string
 	g   *parked
 	ev  *Event
+}
+
+// tryLock performs a lock waiter's attempt with sync.RWMutex's writer preference: a
+// writer that has been refused once is pending, and while a writer is pending on a
+// mutex no reader gets in (its TryRLock would succeed - Go's RLock would block).
+func (s *Sched) tryLock(p *parked) bool {
+	if p.mid != 0 && !p.write && s.pendingW[p.mid] > 0 {
+		return false
+	}
+	ok := p.try()
+	if p.mid != 0 && p.write {
+		if !ok && !p.announced {
+			p.announced = true
+			if s.pendingW == nil {
+				s.pendingW = map[uintptr]int{}
+			}
+			s.pendingW[p.mid]++
+		} else if ok && p.announced {
+			p.announced = false
+			s.pendingW[p.mid]--
+		}
+	}
+	return ok
 }
 
 func (s *Sched) record(kind, key, site string, n int) {
@@ -642,7 +692,7 @@ func (s *Sched) Run(stop func() bool, deadline time.Time, idleCut time.Duration)
 				for len(live) > 0 {
 					i := s.choose(live)
 					c := live[i]
-					if c.g != nil && c.g.try != nil && !c.g.try() {
+					if c.g != nil && c.g.try != nil && !s.tryLock(c.g) {
 						live = append(live[:i], live[i+1:]...)
 						idxs = append(idxs[:i], idxs[i+1:]...)
 						continue
